@@ -283,6 +283,9 @@ def eval_case(
         }
         res["violations"].append({"signature": sig, "detail": detail, "replay": rp, "hash": case_hash(rp)})
 
+    if not sc.scope:
+        batches = [1]
+        add_fold_batch = False
     for fold, opt in flags:
         bs = list(batches)
         for B in bs:
